@@ -46,15 +46,18 @@ pub enum Mut {
     /// inline datum / a reference script; the last key-locked spent output (in body order) is given one
     InlineDatumOnSpentOutputUnderV1,
     ScriptRefOnSpentOutputUnderV1,
+    /// minimum ada (Babbage on): the price per byte is set so that a coin-only output holding the smallest coin of the
+    /// transaction is exactly covered; the output that holds that coin carries assets, so its minimum is strictly higher
+    MinAdaCoversOnlyTheCoin,
 }
 
-pub const ALL: [Mut; 35] = [
+pub const ALL: [Mut; 36] = [
     Mut::EmptyInputs, Mut::RemoveInputUtxo, Mut::RemoveCollateralUtxo, Mut::RemoveReferenceUtxo, Mut::DropScriptReference, Mut::SlotPastTtl, Mut::SlotBeforeValidityStart,
     Mut::RaiseMinAdaPerOutput, Mut::LowerMaxValueSize, Mut::EnvNetworkFlip, Mut::BodyNetworkIdWrong, Mut::OutputNetworkWrong,
     Mut::NoCollateralAllowed, Mut::CollateralToScriptAddress, Mut::CollateralWithAssets, Mut::CollateralTooSmall, Mut::CollateralJustBelowMinimum,
     Mut::RaiseCollateralPercentage, Mut::PercentageJustAboveCollateral, Mut::WrongTotalCollateral, Mut::DropNativeScriptOfMint, Mut::DropOneOfSeveralNativeScripts, Mut::DropPlutusScript, Mut::DropDatum,
     Mut::DropRedeemer, Mut::AlterAuxDataKeepHash, Mut::WrongAuxHash, Mut::DropAuxDataKeepHash, Mut::AuxDataWithoutHash, Mut::HashWithoutAuxData, Mut::WrongScriptDataHash,
-    Mut::AlterCostModel, Mut::DropCostModel, Mut::InlineDatumOnSpentOutputUnderV1, Mut::ScriptRefOnSpentOutputUnderV1,
+    Mut::AlterCostModel, Mut::DropCostModel, Mut::InlineDatumOnSpentOutputUnderV1, Mut::ScriptRefOnSpentOutputUnderV1, Mut::MinAdaCoversOnlyTheCoin,
 ];
 
 #[derive(Debug, Clone, Serialize, Deserialize)]
@@ -336,6 +339,21 @@ fn apply(m: Mut, spec: &Spec, w: &mut World) -> bool {
             if m == Mut::AlterCostModel { w.ppt.alter_cost_model = Some(ver) } else { w.ppt.drop_cost_model = Some(ver) }
             true
         }
+        Mut::MinAdaCoversOnlyTheCoin => {
+            if !era.babbage_plus() {
+                return false;
+            }
+            let Some(v) = TxView::parse(&w.tx) else { return false };
+            let outs = v.outputs();
+            let Some(min_coin) = outs.iter().map(|(_, val)| val.coin).min() else { return false };
+            // the output with the smallest coin must carry assets (several may hold that coin)
+            if !outs.iter().any(|(_, val)| val.coin == min_coin && !val.assets.is_empty()) || min_coin < 1_000_000 {
+                return false;
+            }
+            // minimum = price * (size of the value in words + 160); a bare coin measures at most 2 words, an asset bundle more
+            w.ppt.ada_per_utxo_byte = Some((min_coin / 162) as u64);
+            true
+        }
         Mut::InlineDatumOnSpentOutputUnderV1 | Mut::ScriptRefOnSpentOutputUnderV1 => {
             if !(plutus && era == EraK::Babbage && !w.f.script_by_reference) {
                 return false;
@@ -544,6 +562,23 @@ fn fit(mut spec: Spec, m: Mut, spare: &forge::PlutusS, salt: u8) -> Spec {
             if m == Mut::BodyNetworkIdWrong {
                 spec.body_network_id = true;
             }
+        }
+        Mut::MinAdaCoversOnlyTheCoin => {
+            if spec.era < EraK::Babbage {
+                spec.era = later(EraK::Babbage, salt);
+            }
+            // the first of at least two outputs holds the smallest coin the generator draws and takes (almost) all assets
+            while spec.outputs.len() < 2 {
+                let o = spec.outputs[0].clone();
+                spec.outputs.push(o);
+            }
+            spec.outputs[0].coin = 2_500_000;
+            spec.outputs[0].asset_share = 255;
+            if spec.inputs.iter().all(|i| i.assets.is_empty()) {
+                spec.inputs[0].assets.push((salt % 3, salt % 6, 1 + salt as u64 * 1000));
+            }
+            spec.mint.retain(|m| m.2 > 0);
+            spec.legacy_outputs = salt % 3 != 0;
         }
         Mut::RemoveReferenceUtxo => {
             if spec.era < EraK::Babbage {
